@@ -289,4 +289,90 @@ func setArithmetic.Subtract
   ghost before call setArithmetic.SubtractedElementsCollector: assert arg0 == s && arg1 == m
   ghost before call setArithmetic.AddedElementsCollector: assert arg0 == s && arg1 == m
   ensures r0 != nil
+
+-- ---------------------------------------------------------------------------------------------------------------
+-- readable part: the per-element functions the iterations are made of, and what they maintain
+-- (assumed: the set's own iteration methods invoke the callback sequentially in the caller's goroutine; they are thin
+-- wrappers around OrderedMap.ForEach, which is under contract in ds/orderedmap)
+assume-func github.com/iotaledger/hive.go/ds.readableSet.ForEach(r, callback) (err)
+  opt invokes callback
+assume-func github.com/iotaledger/hive.go/ds.readableSet.Range(r, callback)
+  opt invokes callback
+func readableSet.ToSlice
+  instantiate T: int
+  modifies allelems(int)
+  ensures len(slice) >= 0
+
+-- HasAll: the iteration over the other set stops with an error exactly at an element this set does not have
+func readableSet.HasAll$1
+  instantiate T: int
+  opt sequential
+  requires r != nil && *r != nil && (*r).SerializableOrderedMap != nil && (*r).SerializableOrderedMap.OrderedMap != nil && unlocked((*r).SerializableOrderedMap.OrderedMap.mutex)
+  modifies nothing
+  ensures (r0 == nil) <==> has((*r).SerializableOrderedMap.OrderedMap.dictionary.m, element)
+
+-- Filter: an element enters the result iff the (pure) predicate accepts it; the result holds accepted elements only
+func readableSet.Filter
+  instantiate T: int
+  requires predicate != nil
+  callback predicate(e) (b)
+    opt pure
+  modifies everything
+  ensures filtered != nil
+  ensures forall e Int :: sel(sel(smem, filtered), e) ==> cbres(predicate, e)
+func readableSet.Filter$1
+  instantiate T: int
+  requires predicate != nil && *predicate != nil && filtered != nil && *filtered != nil
+  callback predicate(e) (b)
+    opt pure
+  modifies ghost(smem)
+  maintains forall e Int :: sel(sel(smem, *filtered), e) ==> cbres(*predicate, e)
+  ensures r0 == nil
+  ensures smem == (cbres(*predicate, element) ? upd(old(smem), *filtered, upd(sel(old(smem), *filtered), element, true)) : old(smem))
+
+-- Is: the element is the only one
+func readableSet.Is
+  instantiate T: int
+  opt sequential
+  requires r != nil && r.SerializableOrderedMap != nil && r.SerializableOrderedMap.OrderedMap != nil && unlocked(r.SerializableOrderedMap.OrderedMap.mutex)
+  modifies nothing
+  ensures r0 <==> (r.SerializableOrderedMap.OrderedMap.n == 1 && has(r.SerializableOrderedMap.OrderedMap.dictionary.m, element))
+
+-- Any: the first element the iteration hands out, and the iteration stops there
+func readableSet.Any$1
+  instantiate T: int
+  requires element != nil && exists != nil
+  modifies *element, *exists
+  ensures *element == firstElement && *exists && !r0
+
+-- ToSlice: every element handed out is appended, in that order
+func readableSet.ToSlice$1
+  instantiate T: int
+  requires slice != nil
+  modifies *slice, allelems(int)
+  ensures r0 == nil && len(*slice) == old(len(*slice)) + 1 && (*slice)[old(len(*slice))] == element
+  ensures forall i Int :: 0 <= i && i < old(len(*slice)) ==> (*slice)[i] == old((*slice)[i])
+
+-- Replace: the previous elements are taken before the set is cleared, and every element handed out becomes a member
+func set.Replace
+  instantiate ElementType: int
+  opt sequential
+  requires s != nil && s.readableSet != nil && s.readableSet.SerializableOrderedMap != nil && s.readableSet.SerializableOrderedMap.OrderedMap != nil && elements != nil
+  requires unlocked(s.applyMutex) && unlocked(s.readableSet.SerializableOrderedMap.OrderedMap.mutex)
+  modifies everything
+  ghost local taken Bool
+  ghost at entry: taken = false
+  ghost after call NewSet: taken = true
+  ghost before call OrderedMap.Clear: assert taken && held(s.applyMutex)
+  ensures unlocked(s.applyMutex) && previousElements != nil
+func set.Replace$1
+  instantiate ElementType: int
+  opt sequential
+  requires s != nil && *s != nil && (*s).readableSet != nil && (*s).readableSet.SerializableOrderedMap != nil && (*s).readableSet.SerializableOrderedMap.OrderedMap != nil
+  requires held((*s).applyMutex) && unlocked((*s).readableSet.SerializableOrderedMap.OrderedMap.mutex)
+  modifies everything
+  preserves ghost(smem), ghost(salive), ghost(madd), ghost(mdel), *s, (*s).readableSet, (*s).readableSet.SerializableOrderedMap, (*s).readableSet.SerializableOrderedMap.OrderedMap
+  ensures held((*s).applyMutex)
+  ensures has((*s).readableSet.SerializableOrderedMap.OrderedMap.dictionary.m, element)
+  ensures forall k Int :: k != element ==> (has((*s).readableSet.SerializableOrderedMap.OrderedMap.dictionary.m, k) <==> old(has((*s).readableSet.SerializableOrderedMap.OrderedMap.dictionary.m, k)))
 @*/
